@@ -183,7 +183,7 @@ func cfCases(w *gen.Writer, r *gen.Rand, n int) {
 			stream = append(stream, rc.raw...)
 		}
 		cr := &chunkReader{data: append([]byte(nil), stream...), r: r.Fork(), max: gen.Pick(r, []int{0, 1, 3, 7, 20})}
-		v := gitindex.VerifNewCatfile(cr, gen.Pick(r, []int{16, 16, 64, 4096}))
+		v := gitindex.VerifNewCatfile(cr, gen.Pick(r, []int{16, 16, 64, 4096}), false)
 		var ops, outs []string
 		classes := map[string]bool{}
 		for k := 0; k <= nrec; k++ {
@@ -419,7 +419,7 @@ func docsCases(w *gen.Writer, r *gen.Rand, n int, tmp string) {
 			panic(err)
 		}
 		cr := &chunkReader{data: append([]byte(nil), stream...), r: r.Fork(), max: gen.Pick(r, []int{0, 1, 5})}
-		v := gitindex.VerifNewCatfile(cr, gen.Pick(r, []int{16, 64, 4096}))
+		v := gitindex.VerifNewCatfile(cr, gen.Pick(r, []int{16, 64, 4096}), true)
 		err = gitindex.VerifIndexCatfileBlobs(v, keys, branches, gitindex.Options{BuildOptions: bo}, builder)
 		impl := "error"
 		if err == nil {
@@ -512,6 +512,10 @@ func genRepo(r *gen.Rand) repoSpec {
 		}
 		if r.Chance(1, 2) {
 			t[".sourcegraph/ignore"] = fileSpec{Content: 12 + r.Intn(2), Mode: "100644"}
+			if r.Chance(2, 3) { // paths the ignore files are about
+				t["dir/sub/d.go"] = fileSpec{Content: r.Intn(4), Mode: "100644"}
+				t["dir/f.txt"] = fileSpec{Content: r.Intn(4), Mode: "100644"}
+			}
 		}
 		if len(t) == 0 {
 			t["a.txt"] = fileSpec{Content: 0, Mode: "100644"}
@@ -896,11 +900,11 @@ func main() {
 	}
 	r := gen.NewRand(f.Seed)
 	ignoreCases(w, r.Fork(), f.N(150, 5000))
-	cfCases(w, r.Fork(), f.N(400, 30000))
+	cfCases(w, r.Fork(), f.N(400, 40000))
 	slabCases(w, r.Fork(), f.N(200, 10000))
-	docsCases(w, r.Fork(), f.N(25, 600), tmp)
+	docsCases(w, r.Fork(), f.N(12, 500), tmp)
 	rr := r.Fork()
-	for i := 0; i < f.N(10, 250); i++ {
+	for i := 0; i < f.N(6, 200); i++ {
 		runRepo(w, genRepo(rr.Fork()), tmp)
 	}
 }
